@@ -134,6 +134,7 @@ class Runner(object):
         self.monitors = monitors
         self.viol = []
         self.cnt = {}
+        self.armed_cause = None
         self.obs = []
         self.armed = []          # op indices whose armed exception actually fired
         self.backend = cfg['backend']
@@ -519,6 +520,10 @@ class Runner(object):
         exc_obj = None
         if raise_name and will_eval:
             exc_obj = EXC_TYPES[raise_name]('armed-%d' % i)
+            if i % 2:
+                # as if the function had written `raise X(...) from root`: the caller's handler may walk the chain
+                exc_obj.__cause__ = LookupError('root cause of armed-%d' % i)
+            self.armed_cause = exc_obj.__cause__
             self.probe.arm(exc_obj)
         self.drop_events = []
         self.in_call = True
@@ -556,6 +561,13 @@ class Runner(object):
         if raised is not exc_obj:
             self.violation('C16', 'exception-not-propagated',
                            'function raised %r; caller saw %r' % (exc_obj, raised), keys=[k])
+        elif self.armed_cause is not None and \
+                (raised.__cause__ is not self.armed_cause or not raised.__suppress_context__):
+            # (the armed object is the one that arrived, so its chain was rewritten on the way)
+            self.violation('C16', 'exception-cause-rewritten', 'function raised %r from %r; the caller sees __cause__=%r'
+                           % (exc_obj, 'LookupError(root cause)', raised.__cause__), keys=[k])
+        if self.armed_cause is not None:
+            self.note('c16_chained_raise_checks')
         n = s1['nlog'] - s0['nlog']
         if n != 1:
             self.violation('C16', 'raise-evaluations', 'raising call evaluated %d times' % n, keys=[k])
@@ -771,7 +783,12 @@ class Runner(object):
         cfg = self.cfg
         ms = self.maxsize
         left = [x for x in (set(mem0) | {k}) if x not in mem1]
-        if cls == 'hit':
+        if cls == 'hit' and cfg['safe'] and sk.startswith('<unreprable'):
+            # a safe decorator may abandon its bookkeeping half-way for an argument that cannot be printed (CPython
+            # formats "x not in deque" with repr(x) inside queue.remove, and the bare except degrades): such keys
+            # are not judged by name
+            self.note('c06_skipped_unprintable_key')
+        elif cls == 'hit':
             self.note('c06_hit_checks')
             if left:
                 self.violation('C06', 'hit-removed-entries',
@@ -1092,7 +1109,8 @@ def gen_case(rng, focus, nops=None):
             and focus not in ('C20',):
         # un-keyable arguments: the safe decorators must degrade to plain evaluation
         hostile = [[1, 2], {'a': 1}, {'__s__': [1, 2]}, {'__h__': 'badrepr'}, {'__h__': 'badhash'},
-                   {'__h__': 'badreduce'}, {'__d__': [[1, 2]]}, [[1], [2]]]
+                   {'__h__': 'badreduce'}, {'__d__': [[1, 2]]}, [[1], [2]],
+                   {'__h__': 'badrepr_ke'}, {'__h__': 'badhash_ke'}, {'__h__': 'badreduce_ke'}]
         if focus == 'C16':
             hostile.append({'__deep__': 6000})     # nested far deeper than repr / pickle / hash can recurse
         for _ in range(rng.choice([1, 2, 3])):
